@@ -64,23 +64,29 @@ func (m *Matcher) lit(t string) bool {
 }
 
 func (m *Matcher) num(want float64) bool {
-	loc := numeralRe.FindString(m.s[m.pos:])
-	if loc == "" {
+	greedy := numeralRe.FindString(m.s[m.pos:])
+	if greedy == "" {
 		return m.fail("expected a numeral denoting %v", want)
 	}
-	got, err := strconv.ParseFloat(loc, 64)
-	if err != nil && !math.IsInf(got, 0) {
-		return m.fail("unparsable numeral %q", loc)
+	// the numeral may be followed directly by expected text that starts with
+	// digits ("1e+21" + "5"): take the longest prefix that denotes the value
+	for l := len(greedy); l >= 1; l-- {
+		loc := greedy[:l]
+		if numeralRe.FindString(loc) != loc {
+			continue
+		}
+		got, err := strconv.ParseFloat(loc, 64)
+		if err != nil {
+			continue
+		}
+		if sameFloat(got, want) {
+			m.Numerals = append(m.Numerals, NumObs{loc, want})
+			m.pos += l
+			return true
+		}
 	}
-	if err != nil {
-		return m.fail("numeral %q overflows", loc)
-	}
-	if !sameFloat(got, want) {
-		return m.fail("numeral %q denotes %v, expected %v (bits %x)", loc, got, want, math.Float64bits(want))
-	}
-	m.Numerals = append(m.Numerals, NumObs{loc, want})
-	m.pos += len(loc)
-	return true
+	got, _ := strconv.ParseFloat(greedy, 64)
+	return m.fail("numeral %q denotes %v, expected %v (bits %x)", greedy, got, want, math.Float64bits(want))
 }
 
 func (m *Matcher) segs(segs []ref.Seg) bool {
